@@ -17,7 +17,8 @@ Record kcfg : Type := mkKC {
   kc_members : list rid;
   kc_subtree : list rid;          (* k.tree.SubTree() *)
   kc_leaf : bool;                 (* len(k.tree.ReplicaChildren()) == 0 *)
-  kc_blocks : list hash           (* hashes for which blockchain.Get succeeds (local or fetched) *)
+  kc_blocks : list hash;          (* hashes for which blockchain.Get succeeds (local or fetched) *)
+  kc_bls : bool                   (* the scheme is BLS12-381 *)
 }.
 Definition kqsize (c : kcfg) : nat := Z.to_nat (quorum_size (Z.of_nat (length (kc_members c)))).
 
@@ -41,6 +42,12 @@ Inductive kout : Type :=
 Definition kverify (members : list rid) (h : hash) (l : list ssig) : bool :=
   verify_sigs members h l && nodupbN (map s_lab l).
 
+(* BLS12 Verify has no "no participants" test: an aggregate with an empty bitfield whose point is the identity
+   verifies (the aggregate of no keys is the identity key).  It is written [Some []]; an empty bitfield with any
+   other point does not verify (the harness writes it as one garbage entry).  The list schemes refuse an empty Multi. *)
+Definition kverify_c (c : kcfg) (h : hash) (l : list ssig) : bool :=
+  (kc_bls c && match l with [] => true | _ => false end) || kverify (kc_members c) h l.
+
 (* CanMergeContributions(a, b): no participant of a is contained in b *)
 Definition can_merge (a b : list ssig) : bool :=
   negb (existsb (fun s => memN (s_lab s) (map s_lab b)) a).
@@ -54,7 +61,7 @@ Definition merge (c : kcfg) (st : kstate) (sg : option (list ssig)) : option (ks
   else match sg with
   | None => None                                                         (* Verify on a nil signature *)
   | Some l =>
-      if negb (kverify (kc_members c) (ks_hash st) l) then None
+      if negb (kverify_c c (ks_hash st) l) then None
       else match ks_agg st with
       | None => Some (mkKS (Some l) (ks_sent st) (ks_hash st) (ks_view st) (ks_senders st), [])   (* first contribution *)
       | Some a =>
